@@ -620,7 +620,19 @@ fn exercise_calendar<C: DateRoll>(c: &C) {
             c.is_bus_day(&d) && c.is_settlement(&d)
         })
     };
-    for day in [10_957i64, 10_960, 11_322, 19_000, 19_723] {
+    // the fixed days, and the days around up to six of the calendar's own holidays
+    let mut days: Vec<i64> = vec![10_957, 10_960, 11_322, 19_000, 19_723];
+    let mut seen = 0;
+    for day in 10_000i64..32_000 {
+        if c.is_holiday(&ts_to_ndt(day * 86_400)) {
+            days.extend([day - 2, day - 1, day, day + 1]);
+            seen += 1;
+            if seen >= 6 {
+                break;
+            }
+        }
+    }
+    for day in days {
         if !opens(day) {
             continue;
         }
@@ -686,10 +698,49 @@ pub fn exercise(l: &Loaded) {
             let null = c.to_json_direct().map(|t| t.contains("\"Null\"")).unwrap_or(true);
             if nodes.len() >= 2 {
                 let first = *nodes.keys().min().unwrap();
+                let last = *nodes.keys().max().unwrap();
                 let _ = c.index_value(first - chrono::Duration::days(1));
                 if !null {
-                    let _ = c.index_value(first);
-                    let _ = c.index_value(first + chrono::Duration::days(1));
+                    // (the stored order of a loaded document need not be ascending: ask at
+                    // both ends, beyond them and in between)
+                    for d in [
+                        first,
+                        first + chrono::Duration::days(1),
+                        first + (last - first) / 2,
+                        last,
+                        last + chrono::Duration::days(1),
+                    ] {
+                        let _ = c.index_value(d);
+                    }
+                }
+            }
+        }
+        Loaded::CurveDf(c) => {
+            // same for the generic curve of each interpolator (its node keys through JSON)
+            let keys: Vec<i64> = c
+                .to_json()
+                .ok()
+                .and_then(|t| jsonf::parse(&t).ok())
+                .map(|tree| {
+                    let mut ks = Vec::new();
+                    for p in jsonf::paths(&tree) {
+                        if let Some(jsonf::J::Obj(m)) = jsonf::get(&tree, &p) {
+                            for (k, _) in m {
+                                if let Ok(x) = k.trim_matches('"').parse::<i64>() {
+                                    ks.push(x);
+                                }
+                            }
+                        }
+                    }
+                    ks
+                })
+                .unwrap_or_default();
+            if keys.len() >= 2 {
+                let (first, last) = (*keys.iter().min().unwrap(), *keys.iter().max().unwrap());
+                if last.checked_sub(first).is_some() && first.abs() < 4_000_000_000_000 && last.abs() < 4_000_000_000_000 {
+                    for t in [first - 86_400, first, first + 86_400, first + (last - first) / 2, last, last + 86_400] {
+                        let _ = c.index_value(&ts_to_ndt(t));
+                    }
                 }
             }
         }
@@ -1675,6 +1726,18 @@ fn emit_calls(seed: u64, tier: Tier, unit: u64, sink: &mut dyn FnMut(Plan) -> bo
                     _ => DateFn::CalRange,
                 },
             };
+            // a union whose settlement side never opens on a business day (business Mon-Fri,
+            // settlement calendar working Sat/Sun only): legal as long as nobody asks for
+            // settlement, so these sweeps run with the settlement flag off only
+            let never_settles = !giant.get() && r.chance(0.04);
+            let cal = if never_settles {
+                CalChoice::Union(UnionSpec {
+                    members: vec![CalSpec { holidays: vec![], mask: vec![5, 6] }],
+                    settle: Some(vec![CalSpec { holidays: vec![], mask: vec![0, 1, 2, 3, 4] }]),
+                })
+            } else {
+                cal
+            };
             let counts = if func == DateFn::Roll {
                 vec![0]
             } else if giant.get() {
@@ -1731,6 +1794,9 @@ fn emit_calls(seed: u64, tier: Tier, unit: u64, sink: &mut dyn FnMut(Plan) -> bo
                     }
                 }
                 for settlement in [false, true] {
+                    if never_settles && settlement {
+                        continue;
+                    }
                     if !sink(Plan::Call(CallSpec::DateSweep {
                         cal: cal.clone(),
                         date,
@@ -1966,6 +2032,23 @@ fn emit_calls(seed: u64, tier: Tier, unit: u64, sink: &mut dyn FnMut(Plan) -> bo
                     })
                     .collect();
                 let mut b = base.setup.base.clone();
+                // rates that are not ordinary positive levels: zero of either sign, negative,
+                // infinite, NaN, and dual numbers that are identically zero / carry no variable
+                if r.chance(0.2) && !quotes.is_empty() {
+                    let i = r.below(quotes.len() as u64) as usize;
+                    quotes[i].num = match r.below(10) {
+                        0 => Num::F(Fx::new(0.0)),
+                        1 => Num::F(Fx::new(-0.0)),
+                        2 => Num::F(Fx::new(-1.5)),
+                        3 => Num::F(Fx::new(f64::INFINITY)),
+                        4 => Num::F(Fx::new(f64::NAN)),
+                        5 => Num::D { v: Fx::new(0.0), g: vec![] },
+                        6 => Num::D2 { v: Fx::new(0.0), g: vec![], h: vec![] },
+                        7 => Num::D { v: Fx::new(0.0), g: vec![("x".into(), Fx::new(0.0))] },
+                        8 => Num::D2 { v: Fx::new(1.25), g: vec![], h: vec![] },
+                        _ => Num::D { v: Fx::new(f64::MIN_POSITIVE / 8.0), g: vec![("x".into(), Fx::new(1.0))] },
+                    };
+                }
                 match r.below(9) {
                     0 => {}
                     1 => {
@@ -2490,6 +2573,7 @@ pub struct C20;
 impl Scenario for C20 {
     type Plan = Plan;
     const ID: &'static str = "C20";
+    const BARE_PASS: bool = true;
     const LEVEL: &'static str = "fault_enumeration";
 
     fn units(tier: Tier) -> u64 {
